@@ -59,6 +59,8 @@ def gen_plan(rng, tier, idx, opts):
             ops.append({"op": "get"})
         elif r < 0.36:
             ops.append({"op": "sibling", "n": rng.randint(1, 20)})     # a similar generator is created and used in between
+        elif r < 0.38 and not bursty:
+            ops.append({"op": "set_shape", "shape": rng.choice([None, 1, 2, 4, [2, 2], [3, 2], [2, 2, 2]])})
         elif r < 0.46 and bursty and pos < limit // 2 and sum(1 for o in ops if o["op"] == "burst") < 3:
             # a long run of tiny requests: what a streaming user does, and where per-call drift would accumulate
             cnt = int(10 ** rng.uniform(2, 3.7))
@@ -140,6 +142,19 @@ def execute(plan):
                     if last is not None and (np.shape(s) != np.shape(last) or not np.array_equal(s, last)):
                         viol("value", step, "get_samples() changed without a new request")
                     log.add("get")
+                elif o == "set_shape":
+                    ns = op["shape"]
+                    if ns is not None and L * int(np.prod(ns)) > 64:
+                        continue
+                    gen.shape = None if ns is None else (tuple(ns) if isinstance(ns, list) else int(ns))
+                    shp2 = gen.shape
+                    base = () if shp2 is None else tuple(shp2)
+                    phi = np.array(gen._phi_l, copy=True)          # documented: the phases are redrawn on a shape change
+                    psi = np.array(gen._psi_l, copy=True)
+                    last = None
+                    first_sample = None
+                    log.add("set_shape", ns)
+                    bump(res["probes"], "shape_changed_through_the_setter")
                 elif o == "sibling":
                     g2 = gen.get_similar_fading_generator()
                     phi2, psi2 = np.array(g2._phi_l, copy=True), np.array(g2._psi_l, copy=True)
